@@ -30,6 +30,9 @@ type File struct {
 	// (run indices Idx-Prefix .. Idx-1, regenerated from VerifSeed) are
 	// executed in the same process.
 	Prefix int `json:"prefix_runs,omitempty"`
+	// Procs is the GOMAXPROCS value of the process that observed the
+	// violation (a configuration knob; 0 in old files: 1).
+	Procs int `json:"gomaxprocs,omitempty"`
 	// Depth is the bound-scaling factor (kernel.Depth) the run was made with.
 	Depth int `json:"depth,omitempty"`
 	// Reproduced is false when the violation was observed during the batch
